@@ -521,6 +521,16 @@ def r_decor(prog, tier):
             obs.append(Ob('DECOR/GUARD', f.fq, 'decoration `%s = %s` appears exactly under option %s'
                           % (c, unparse(val)[:40], ' / '.join(need)), verdict, why,
                           construct='decor:%s=%s' % (c, unparse(val)), line=cfg.nodes[nid].lineno))
+            if 'block_number' in fields or 'split' in fields:
+                # the split decorations belong to nodes that ARE block nodes now: the `split` flag decides, not whether a
+                # number happens to be stored on the node (one survives from an earlier boyd_split)
+                by_flag = any(fa[0] == 'truthy' and fa[1].endswith(".data['split']") and fa[2] is True for fa in fl)
+                by_key = [fa for fa in fl if fa[0] in ('haskey', 'in') and 'block_number' in str(fa) and '.data' in str(fa)]
+                if by_key and not by_flag:
+                    obs.append(Ob('DECOR/GUARD', f.fq, 'decoration `%s = %s` is written for nodes flagged as split' % (c, unparse(val)[:40]),
+                                  False, 'the decoration depends on `%s` - whether a block number is stored on the node - and not on the '
+                                  '`split` flag: a number left over from an earlier boyd_split is printed on a node that is not a '
+                                  'block node (any more)' % (by_key[0],), construct='decor-splitflag:%s' % c, line=cfg.nodes[nid].lineno))
             if 'edge' in fields:
                 ok2 = None
                 for fa in fl:
@@ -853,6 +863,17 @@ def _counter_first_value(f, c, use):
     constant initialiser outside the loops + number of `+= 1` that dominate the use inside the loop."""
     cfg = f.cfg
     defs = name_defs(f, c)
+    # the index of an enumerate() loop: counts from its start value (0 when none is given)
+    if len(defs) == 1 and isinstance(defs[0][1], tuple) and defs[0][1][0] == 'iter':
+        it, tg = defs[0][1][1], defs[0][1][2]
+        if isinstance(it, ast.Call) and unparse(it.func) == 'enumerate' and isinstance(tg, ast.Tuple) and tg.elts \
+                and isinstance(tg.elts[0], ast.Name) and tg.elts[0].id == c:
+            st = it.args[1] if len(it.args) > 1 else next((k.value for k in it.keywords if k.arg == 'start'), None)
+            if st is None:
+                return 0, 'index of enumerate() without a start value', []
+            if isinstance(st, ast.Constant) and isinstance(st.value, int):
+                return st.value, 'index of enumerate() from %d' % st.value, []
+            return None, 'enumerate() start `%s`' % unparse(st), []
     inits = [(n, v) for (n, v) in defs if isinstance(v, ast.Constant) and isinstance(v.value, int)
              and not cfg.nodes[n].loops]
     incs = [(n, v) for (n, v) in defs if isinstance(v, tuple) and v[0] == 'aug']
